@@ -340,3 +340,13 @@ func TestC19(t *testing.T) {
 }
 
 func jsonMarshal(v any) ([]byte, error) { return json.Marshal(v) }
+
+// sample spreads the shards' sample reservoirs over the sub-checks: shard i
+// samples only the sub-check i mod 6.
+var sampleSubs = []string{"custom", "ambient", "input", "vars", "deny", "environ"}
+
+func sample(sub string, v any) {
+	if sampleSubs[rec.Shard%len(sampleSubs)] == sub {
+		rec.Sample(v)
+	}
+}
